@@ -49,7 +49,7 @@ PROBES = ['register-with-subtree', 'tree-depth>=3', 'register-under-nonroot', 'r
           'unregister-with-subtree-completed', 'multi-unregister-before-tick', 'unregister-again-while-pending',
           'probe-dispatched-after-a-completion', 'tick-of-reattached-then-detached-root', 'obs:unregister-never-completes']
 TIERS = {
-    'quick': dict(runs=45000, wall=30, chunk=100, cfg=dict(max_ops=40)),
+    'quick': dict(runs=70000, wall=30, chunk=100, cfg=dict(max_ops=40)),
     'thorough': dict(runs=1400000, wall=600, chunk=500, cfg=dict(max_ops=60)),
 }
 
